@@ -1,15 +1,19 @@
-import FstVerif.Model.Sink
+import FstVerif.Proofs.EndToEnd
+import FstVerif.Proofs.Sink
+import FstVerif.Proofs.Crc
 /-
-C15 — determinism and API-path independence. In the model the emitted bytes
-are *by construction* a function of (type, geometry, call sequence); what is
-stated here is that rejected calls do not enter that function (so the bytes
-are a function of the accepted sequence) and that the type only affects the
-second header word. The content of the check is the correspondence run: every
-front end, thread and process of the implementation against this one function.
+C15 — construction is deterministic and independent of the API path. In the
+model the emitted bytes are *by construction* a function of (type, cache
+geometry, call sequence). What is stated here: rejected calls do not enter
+that function; writing through any benign sink gives the in-memory bytes
+(API path = sink independence); the type only affects the second header word.
+The tie to the real code — every front end, 8 threads, 2 processes, 3
+repetitions byte-identical to this one function — is the correspondence run.
 -/
-namespace Fst
+namespace Fst.Props
+open Fst Fst.SinkProofs
 
-/-- run a call sequence, ignoring rejected calls (what `insert`/`add` do) -/
+/-- run a call sequence, ignoring rejected calls (what single `insert`s do) -/
 def runIns (s : BState) : List (Key × Nat) → BState
   | [] => s
   | (k, v) :: rest =>
@@ -39,23 +43,34 @@ theorem C15_function_of_accepted (s : BState) (calls : List (Key × Nat)) :
       simp only [runIns, h]
       exact ih s'
 
-/-- every call of the accepted subsequence is accepted again when replayed alone -/
-theorem C15_accepted_replay (s : BState) (calls : List (Key × Nat)) :
-    acceptedIns s (acceptedIns s calls) = acceptedIns s calls := by
+/-- the accepted subsequence run through `insertAll` (the `extend_*` / `from_iter` fold)
+reaches the same state as the single calls -/
+theorem C15_extend_eq_single (s : BState) (calls : List (Key × Nat)) :
+    insertAll s (acceptedIns s calls) = .ok (runIns s calls) := by
   induction calls generalizing s with
   | nil => rfl
   | cons c rest ih =>
     obtain ⟨k, v⟩ := c
-    simp only [acceptedIns]
+    simp only [runIns, acceptedIns]
     cases h : s.insert k v with
     | error e => simp only []; exact ih s
     | ok s' =>
-      simp only [acceptedIns, h]
-      rw [ih s']
+      simp only [insertAll, h]
+      exact ih s'
+
+/-- writing through ANY benign sink (short writes, Interrupted, prefill, buffered or
+not) yields the bytes of the in-memory build -/
+theorem C15_sink_independent (p : List UInt8) (script : List Resp) (hb : Benign script)
+    (ty rows cols : Nat) (calls : List Call) (b : BState) (bytes : List UInt8)
+    (hrun : BState.run (BState.new rows cols) calls = .ok b) (hfile : b.fileBytes ty = .ok bytes) :
+    ∃ cw x0 x s, IOB.new (Sink.new p script) ty rows cols = (cw, .ok x0) ∧
+      IOB.run x0 calls = some x ∧ x.b = b ∧ x.intoInner = (s, .ok ()) ∧
+      s.held = (p ++ bytes).toArray :=
+  Fst.SinkProofs.C07_bytes (fun s a b => Fst.C08_chunking s a b) p script hb ty rows cols calls b bytes hrun hfile
 
 /-- the FST type is only the second header word: all node bytes are independent of it -/
 theorem C15_type_only_in_header (ty1 ty2 : Nat) (s : BState) (root : Nat) :
     (s.bodyChunks ty1 root).drop 2 = (s.bodyChunks ty2 root).drop 2 := by
   simp [BState.bodyChunks, headerChunks]
 
-end Fst
+end Fst.Props
